@@ -1015,6 +1015,13 @@ impl<'h, A: Kind, B: Kind, C: Kind> Run<'h, A, B, C> {
         if got2 != expect {
             fail!(self, Prop::C02, "entities-join: lend_join yields {:?}, model says {:?}", got2, expect);
         }
+        // parallel variant: the real producer, split as far as it goes
+        let mut got3: Vec<Entity> = vec![];
+        (&*ents).par_join().verif_drive(&mut |p| p.len() < 6, &mut |_p, e| got3.push(e));
+        got3.sort_by_key(|e| e.id());
+        if got3 != expect {
+            fail!(self, Prop::C02, "entities-join: par_join yields {:?}, model says {:?}", got3, expect);
+        }
     }
 
     fn check_comps<T: Tok>(&mut self, k: usize) {
@@ -1386,10 +1393,23 @@ impl<'h, A: Kind, B: Kind, C: Kind> Run<'h, A, B, C> {
                 }
             }
         }
-        if self.h.alphabet == Alphabet::E2 && self.h.prop == Prop::C05 && budget >= 1 {
-            // entities born inside maintain (possibly on an index freed by the same maintain)
-            v.push(Op::LazyExecCreateNow);
-            v.push(Op::LazyExecCreateWith(0));
+        // (one queued action at a time keeps the E2 graph small; E3 explores queues properly)
+        if self.h.alphabet == Alphabet::E2 && matches!(self.h.prop, Prop::C05 | Prop::C03) && self.m.queue.is_empty() {
+            // deferred paths: handles captured now, used inside a later maintain; entities born or
+            // deleted inside maintain (possibly on an index freed by the same maintain)
+            if budget >= 1 {
+                v.push(Op::LazyExecCreateNow);
+                v.push(Op::LazyExecCreateWith(0));
+                v.push(Op::LazyBuild(0));
+            }
+            for s in 0..n {
+                v.push(Op::LazyInsert(s, 0));
+                if self.h.prop == Prop::C05 {
+                    v.push(Op::LazyExecEntDelete(s));
+                } else {
+                    v.push(Op::LazyRemove(s, 1));
+                }
+            }
         }
         if self.h.alphabet == Alphabet::E3 {
             for s in 0..n {
@@ -1662,7 +1682,7 @@ fn plan_inner(prop: Prop, thorough: bool) -> Vec<(usize, Config)> {
             },
         )],
         Prop::C03 => {
-            let n = if thorough { 5 } else { 4 };
+            let n = if thorough { 5 } else { 3 };
             (0..6)
                 .map(|i| {
                     (
@@ -1681,7 +1701,7 @@ fn plan_inner(prop: Prop, thorough: bool) -> Vec<(usize, Config)> {
                 .collect()
         }
         Prop::C05 => {
-            let n = if thorough { 5 } else { 4 };
+            let n = if thorough { 4 } else { 3 };
             let regs = [
                 [Register, RegisterWithStorage, SetupRead],
                 [SetupWrite, DispatcherSetup, Both],
